@@ -88,6 +88,11 @@ func runListen(n int, udpFail, tcpFail string, stopMs int, rep int) string {
 		rep = -rep
 	}
 	p := proxy.Proxy{Addrs: addrs, Upstream: up, MaxInflightRequests: listenCaps[rep%len(listenCaps)]}
+	if rep%2 == 1 {
+		// an error log that takes its time (run.go hands errors to the host logger: syslog, a file): what ListenAndServe
+		// reports must not depend on how long logging takes
+		p.ErrorLog = func(error) { time.Sleep(120 * time.Millisecond) }
+	}
 	ctx, cancel := context.WithCancel(context.Background())
 	defer cancel()
 	done := make(chan error, 1)
